@@ -518,7 +518,7 @@ func main() {
 		"a signal with IsDetected and Nonce == MaxUint64 is the 'consensus stuck' signal; it is checked against the necessary conditions recomputed from the mock clock (trigger round, no ResetFork in this round, more than MaxRoundsWithoutCommittedBlock rounds since genesis)",
 		"a pending SetRollBackNonce is consumed by the first non-stuck CheckFork and is exempt from O1")
 	r.MinShapes(30)
-	n := r.N(6000, 120000)
+	n := r.N(6000, 400000)
 	r.Parallel(n, func(c *vk.Case) {
 		meta := (c.Idx/2)%2 == 1
 		if c.Idx%2 == 0 {
